@@ -401,8 +401,10 @@ class SimpleHeatPumpCycle:
 
         def _build_streams(profile: np.ndarray, is_hot: bool): 
 
-            if is_hot:
-                self._m_dot = self._Q_cond / abs(profile[0,0] - profile[-1,0])
+            # Specific enthalpies are in J/kg: scale the profile to the duty of the
+            # exchanger it describes (without touching the solved cycle's mass flow)
+            duty = self._Q_cond if is_hot else self._Q_evap
+            m_dot = duty / abs(profile[0,0] - profile[-1,0])
             sc = StreamCollection()
             for i in range(len(profile) - 1):
                 h1, T1 = profile[i]
@@ -422,7 +424,7 @@ class SimpleHeatPumpCycle:
                     name=name,
                     t_supply=T1,
                     t_target=t_target,
-                    heat_flow=self._m_dot*abs(h1 - h2),  # or m_dot * (h1 - h2), depending on your model
+                    heat_flow=m_dot*abs(h1 - h2),
                     is_process_stream=False,
                     dt_cont=self._dtcont,
                 )
